@@ -711,6 +711,17 @@ def optional_defaults_and_compound_keys(col):
                 col.violation('C09/nested-compound-key-%s' % ('conforming-target-rejected' if conforms else 'accepted'),
                               'Match({name: str, %s: float}) on %r: %r' % (kdesc, target, got), None)
         pass
+    # (2') Not(M op c) conforms exactly when the comparison is false - also for values that are only partially ordered
+    nan = float('nan')
+    for desc, pat, target in (('~(M > frozenset({1})) on frozenset({2})', ~(M > frozenset({1})), frozenset({2})),
+                              ('Not(M >= frozenset({1, 2})) on frozenset({3})', Not(M >= frozenset({1, 2})), frozenset({3})),
+                              ('~(M > 0) on nan', ~(M > 0), nan), ('~(M <= 0) on nan', ~(M <= 0), nan),
+                              ("[~(M < frozenset({1}))] on [frozenset({2})]", [~(M < frozenset({1}))], [frozenset({2})])):
+        got = call(G, target, Match(pat))
+        col.case(('not-over-partial-order', desc), True)
+        col.count('conforming_targets')
+        if not got.ok or (got.value is not target and got.value != target):
+            col.violation('C09/negated-comparison-of-incomparable-values', 'Match(%s): %r, the comparison is false so its negation conforms' % (desc, got), None)
     # (3) an Optional key is an EQUALITY key, whatever the constant looks like: a frozenset / tuple-with-frozenset constant is not
     # matched element-wise
     for const, near_misses in ((frozenset({'a', 'b'}), [frozenset({'a'}), frozenset()]), ((1, frozenset({2, 3})), [(1, frozenset({2})), (1, frozenset())])):
